@@ -1,8 +1,8 @@
-\* replay generation + contract invariants on the repaired merge (FocusBuild, histories up to 4 contributors)
+\* replay generation + contract invariants on the repaired merge (FocusShape, histories up to 4 contributors)
 SPECIFICATION Spec
 CONSTANTS
   MaxContrib = 4
-  Focus <- FocusBuild
+  Focus <- FocusShape
   DEV_NestedSupertype = FALSE
   DEV_OwnerImportTwice = FALSE
   DEV_OwnerNaming = TRUE
